@@ -79,9 +79,9 @@ end BufFile
 namespace FileAppender
 
 theorem append_disk (w : BufFile) (r : Rec) : (append w r).disk = w.disk ++ w.buf ++ encBytes r := by
-  have := BufFile.logical_foldl_writeAll r w
+  have := BufFile.logical_writeAll w (encBytes r)
   simp only [BufFile.logical] at this
-  simp [append, encode, encBytes, this]
+  simp [append, encode, this]
 
 @[simp] theorem append_buf (w : BufFile) (r : Rec) : (append w r).buf = [] := rfl
 
@@ -158,16 +158,14 @@ theorem quiet_set (s : Handles) (k : Nat) (h : s.Quiet) : ∀ b ∈ s.bufs.set k
   · exact h b h1
   · exact h1
 
-/-- the model's trace is the specification's for every history in which no failing encoder has
-written anything: appends through any appender, foreign appends, further appenders, restarts -/
+/-- the model's trace is the specification's for every history: appends through any appender,
+failing encoders, foreign appends, further appenders, restarts -/
 theorem trace_eq_fileTraceM (m : OpenMode) (ops : List MOp) (s : Handles) (hq : s.Quiet)
-    (hv : validOps s.bufs.length ops = true) (hnt : ∀ op ∈ ops, op.torn = false) :
+    (hv : validOps s.bufs.length ops = true) :
     trace m s ops = Spec.fileTraceM m s.file ops := by
   induction ops generalizing s with
   | nil => rfl
   | cons op ops ih =>
-    have hnt' : ∀ o ∈ ops, o.torn = false := fun o ho => hnt o (List.mem_cons_of_mem _ ho)
-    have hop := hnt op (List.mem_cons_self ..)
     cases op with
     | append k r fa =>
       simp only [validOps, Bool.and_eq_true, decide_eq_true_eq] at hv
@@ -183,27 +181,16 @@ theorem trace_eq_fileTraceM (m : OpenMode) (ops : List MOp) (s : Handles) (hq : 
         have hlen : (applyOp m s (.append k r none)).bufs.length = s.bufs.length := by
           simp [applyOp, hv.1, store]
         simp only [trace, Spec.fileTraceM]
-        rw [ih _ hq' (by rw [hlen]; exact hv.2) hnt', hfile]
+        rw [ih _ hq' (by rw [hlen]; exact hv.2), hfile]
       | some n =>
-        simp only [MOp.torn, Bool.not_eq_false', List.isEmpty_iff] at hop
-        obtain ⟨p, h1, h2⟩ := BufFile.foldl_writeAll_grows (r.take n) (s.view k)
-        rw [hvb, hop] at h2
-        simp only [List.append_nil, List.nil_append, List.append_eq_nil_iff] at h2
-        have hfile : (applyOp m s (.append k r (some n))).file = s.file := by
-          simp only [applyOp, hv.1, if_true, store, FileAppender.encode]
-          rw [h1, h2.1]
-          simp [view]
-        have hq' : (applyOp m s (.append k r (some n))).Quiet := by
-          simp only [applyOp, hv.1, if_true, store, FileAppender.encode, h2.2]
-          exact quiet_set s k hq
-        have hlen : (applyOp m s (.append k r (some n))).bufs.length = s.bufs.length := by
-          simp [applyOp, hv.1, store]
+        -- the encoder failed in memory: nothing happened to the file or to the appender
+        have hsame : applyOp m s (.append k r (some n)) = s := by simp [applyOp]
         simp only [trace, Spec.fileTraceM]
-        rw [ih _ hq' (by rw [hlen]; exact hv.2) hnt', hfile]
+        rw [hsame, ih _ hq hv.2]
     | foreign x =>
       simp only [validOps] at hv
       simp only [trace, Spec.fileTraceM]
-      rw [ih _ (by simpa [applyOp, Quiet] using hq) (by simpa [applyOp] using hv) hnt']
+      rw [ih _ (by simpa [applyOp, Quiet] using hq) (by simpa [applyOp] using hv)]
       rfl
     | build =>
       simp only [validOps] at hv
@@ -214,7 +201,7 @@ theorem trace_eq_fileTraceM (m : OpenMode) (ops : List MOp) (s : Handles) (hq : 
         · exact hq b hb
         · exact hb
       simp only [trace, Spec.fileTraceM]
-      rw [ih _ hq' (by simpa [applyOp] using hv) hnt']
+      rw [ih _ hq' (by simpa [applyOp] using hv)]
       cases m <;> rfl
     | restart k =>
       simp only [validOps, Bool.and_eq_true, decide_eq_true_eq] at hv
@@ -226,7 +213,7 @@ theorem trace_eq_fileTraceM (m : OpenMode) (ops : List MOp) (s : Handles) (hq : 
         simp [applyOp, hv.1]
       have hvd : (s.view k).disk = s.file := rfl
       simp only [trace, Spec.fileTraceM]
-      rw [ih _ hq' (by rw [hlen]; exact hv.2) hnt']
+      rw [ih _ hq' (by rw [hlen]; exact hv.2)]
       cases m <;> simp [applyOp, hv.1, openContent, hvb, hvd]
 
 end Handles
